@@ -1,11 +1,296 @@
-(* AuthhelperProofs.v — proofs about AuthhelperModel.v (C46, C47). *)
+(* AuthhelperProofs.v — proofs about AuthhelperModel.v (C47: helper reply reader; C46: Basic authentication). *)
 Require Import SquidV.Bytes SquidV.AuthhelperModel.
 Require Import ZifyBool ZifyN ZifyNat.
 Local Open Scope N_scope.
 
-Lemma arrive_no_header_denied good cfg st rid :
-  a_out (astep good cfg st (Arrive rid None)) = a_out st ++ [(rid, None)].
-Proof. reflexivity. Qed.
+(* ================================================================== generic list facts *)
+Lemma span_app_inner {A} (p : A -> bool) a x :
+  snd (span p a) <> [] -> span p (a ++ x) = (fst (span p a), snd (span p a) ++ x).
+Proof.
+  induction a as [|y a IH]; cbn [span app fst snd]; intros H; [congruence|].
+  destruct (p y) eqn:E.
+  - destruct (span p a) as [u v] eqn:S. cbn [fst snd] in *. rewrite (IH H). reflexivity.
+  - reflexivity.
+Qed.
 
-Lemma heof_drops st : h_reqs (fst (heof st)) = [].
-Proof. reflexivity. Qed.
+Lemma span_app_stop {A} (p : A -> bool) a x :
+  match x with [] => True | y :: _ => p y = false end ->
+  span p (a ++ x) = (fst (span p a), snd (span p a) ++ x).
+Proof.
+  intros Hx. induction a as [|y a IH]; cbn [span app fst snd].
+  - destruct x as [|z x]; cbn [span]; [reflexivity| rewrite Hx; reflexivity].
+  - destruct (p y) eqn:E; [|reflexivity].
+    rewrite IH. destruct (span p a) as [u v]. reflexivity.
+Qed.
+
+(* ================================================================== whitespace *)
+Lemma skip_ws_nows l : hd_isspace l = false -> skip_ws l = l.
+Proof. destruct l as [|c l]; cbn [hd_isspace skip_ws]; intros H; [reflexivity| now rewrite H]. Qed.
+
+Lemma skip_ws_allws w x : forallb isspace w = true -> skip_ws (w ++ x) = skip_ws x.
+Proof.
+  induction w as [|c w IH]; cbn [forallb app skip_ws]; intros H; [reflexivity|].
+  apply andb_prop in H as [H1 H2]. rewrite H1. auto.
+Qed.
+
+Lemma skip_ws_split e : exists w, forallb isspace w = true /\ e = w ++ skip_ws e.
+Proof.
+  induction e as [|c e [w [H1 H2]]]; [exists []; split; reflexivity|].
+  cbn [skip_ws]. destruct (isspace c) eqn:E.
+  - exists (c :: w). cbn [forallb app]. rewrite E, H1. split; [reflexivity| now f_equal].
+  - exists []. split; reflexivity.
+Qed.
+
+Lemma skip_ws_idem x : skip_ws (skip_ws x) = skip_ws x.
+Proof.
+  induction x as [|c x IH]; cbn [skip_ws]; [reflexivity|].
+  destruct (isspace c) eqn:E; [exact IH| cbn [skip_ws]; now rewrite E].
+Qed.
+
+Lemma skip_ws_hd x : hd_isspace (skip_ws x) = false.
+Proof.
+  induction x as [|c x IH]; cbn [skip_ws]; [reflexivity|].
+  destruct (isspace c) eqn:E; [exact IH| cbn [hd_isspace]; exact E].
+Qed.
+
+Lemma skip_ws_snoc x c : isspace c = true ->
+  skip_ws (x ++ [c]) = match skip_ws x with [] => [] | _ => skip_ws x ++ [c] end.
+Proof.
+  intros Hc. induction x as [|d x IH]; cbn [app skip_ws]; [now rewrite Hc|].
+  destruct (isspace d) eqn:E; [exact IH| reflexivity].
+Qed.
+
+(* the reply text up to blanks at both ends *)
+Definition trim (x : bytes) : bytes := rev (skip_ws (rev (skip_ws x))).
+
+Lemma trim_skip_ws x : trim (skip_ws x) = trim x.
+Proof. unfold trim. now rewrite skip_ws_idem. Qed.
+
+Lemma trim_ws_prefix w x : forallb isspace w = true -> trim (w ++ x) = trim x.
+Proof. intros H. unfold trim. now rewrite skip_ws_allws. Qed.
+
+Lemma trim_snoc_ws x c : isspace c = true -> trim (x ++ [c]) = trim x.
+Proof.
+  intros Hc. unfold trim. rewrite skip_ws_snoc by exact Hc.
+  destruct (skip_ws x) as [|d y] eqn:E; [reflexivity|].
+  rewrite rev_app_distr. cbn [rev app skip_ws]. now rewrite Hc.
+Qed.
+
+(* ================================================================== strtol *)
+Definition nows (l : bytes) : Prop := hd_isspace l = false.
+
+Lemma sign_rest_app c s x : sign_rest ((c :: s) ++ x) = sign_rest (c :: s) ++ x.
+Proof. cbn [app sign_rest]. destruct ((c =? 45) || (c =? 43)); reflexivity. Qed.
+
+Lemma strtol_app_inner s x :
+  hd_isspace (snd (strtol s)) = true -> nows s ->
+  strtol (s ++ x) = (fst (strtol s), snd (strtol s) ++ x).
+Proof.
+  intros He Hs. destruct s as [|c s]; [discriminate He|].
+  unfold nows in Hs. cbn [hd_isspace] in Hs.
+  assert (K1 : skip_ws (c :: s) = c :: s) by (cbn [skip_ws]; now rewrite Hs).
+  assert (K2 : skip_ws ((c :: s) ++ x) = (c :: s) ++ x) by (cbn [app skip_ws]; now rewrite Hs).
+  unfold strtol in *. rewrite K1 in *. rewrite K2. rewrite sign_rest_app.
+  destruct (span isdigit (sign_rest (c :: s))) as [ds e] eqn:S.
+  destruct ds as [|d ds].
+  - cbn [snd hd_isspace] in He. congruence.
+  - cbn [snd fst] in *. assert (Hne : snd (span isdigit (sign_rest (c :: s))) <> []).
+    { rewrite S. cbn [snd]. destruct e; [discriminate He| discriminate]. }
+    rewrite (span_app_inner isdigit _ x Hne), S. reflexivity.
+Qed.
+
+Lemma strtol_app_stop s x :
+  s <> [] -> nows s -> match x with [] => True | y :: _ => isdigit y = false end ->
+  strtol (s ++ x) = (fst (strtol s), snd (strtol s) ++ x).
+Proof.
+  intros Hne Hs Hx. destruct s as [|c s]; [congruence|].
+  unfold nows in Hs. cbn [hd_isspace] in Hs.
+  assert (K1 : skip_ws (c :: s) = c :: s) by (cbn [skip_ws]; now rewrite Hs).
+  assert (K2 : skip_ws ((c :: s) ++ x) = (c :: s) ++ x) by (cbn [app skip_ws]; now rewrite Hs).
+  unfold strtol. rewrite K1, K2. rewrite sign_rest_app.
+  rewrite (span_app_stop isdigit _ x Hx).
+  destruct (span isdigit (sign_rest (c :: s))) as [ds e] eqn:S. cbn [fst snd].
+  destruct ds as [|d ds]; reflexivity.
+Qed.
+
+(* ================================================================== lines *)
+Definition noLF (l : bytes) : Prop := forallb (fun c => negb (c =? LF)) l = true.
+
+Lemma split_lf_nolf a : noLF a -> split_lf a = ([], a).
+Proof.
+  unfold noLF. induction a as [|c a IH]; cbn [forallb split_lf]; intros H; [reflexivity|].
+  apply andb_prop in H as [H1 H2]. rewrite (IH H2).
+  destruct (c =? LF); [discriminate H1| reflexivity].
+Qed.
+
+Lemma split_lf_line a b : noLF a ->
+  split_lf (a ++ LF :: b) = (a :: fst (split_lf b), snd (split_lf b)).
+Proof.
+  unfold noLF. induction a as [|c a IH]; cbn [forallb app]; intros H.
+  - cbn [split_lf]. destruct (split_lf b) as [ls p]. rewrite N.eqb_refl. reflexivity.
+  - apply andb_prop in H as [H1 H2]. cbn [split_lf]. rewrite (IH H2). cbn [fst snd].
+    destruct (c =? LF); [discriminate H1| reflexivity].
+Qed.
+
+Lemma split_first_lf (x : bytes) : noLF x \/ exists a b, x = a ++ LF :: b /\ noLF a.
+Proof.
+  induction x as [|c x IH]; [left; reflexivity|].
+  destruct (c =? LF) eqn:E.
+  - right. exists [], x. apply N.eqb_eq in E. subst c. split; reflexivity.
+  - destruct IH as [H|[a [b [H1 H2]]]].
+    + left. unfold noLF. cbn [forallb]. rewrite E. exact H.
+    + right. exists (c :: a), b. split; [now rewrite H1|]. unfold noLF. cbn [forallb]. rewrite E. exact H2.
+Qed.
+
+Lemma noLF_app a b : noLF a -> noLF b -> noLF (a ++ b).
+Proof. unfold noLF. intros Ha Hb. rewrite forallb_app, Ha, Hb. reflexivity. Qed.
+
+Lemma split_lf_tail_nolf x : noLF (snd (split_lf x)).
+Proof.
+  induction x as [|c x IH]; [reflexivity|]. cbn [split_lf].
+  destruct (split_lf x) as [ls p]. cbn [snd] in *.
+  destruct (c =? LF) eqn:E; [exact IH|].
+  destruct ls; cbn [snd]; [|exact IH]. unfold noLF. cbn [forallb]. rewrite E. exact IH.
+Qed.
+
+Lemma split_lf_app x y :
+  split_lf (x ++ y) =
+  (fst (split_lf x) ++ fst (split_lf (snd (split_lf x) ++ y)), snd (split_lf (snd (split_lf x) ++ y))).
+Proof.
+  induction x as [|c x IH]; cbn [app split_lf fst snd].
+  - destruct (split_lf y); reflexivity.
+  - rewrite IH. destruct (split_lf x) as [ls p]. cbn [fst snd].
+    destruct (split_lf (p ++ y)) as [ls2 p2] eqn:S2. cbn [fst snd].
+    destruct (c =? LF) eqn:E; cbn [fst snd app]; [now rewrite S2|].
+    destruct ls as [|l ls]; cbn [app fst snd].
+    + cbn [split_lf]. rewrite S2, E. destruct ls2; reflexivity.
+    + now rewrite S2.
+Qed.
+
+Lemma last_app_ne {A} (q c1 : list A) d : c1 <> [] -> last (q ++ c1) d = last c1 d.
+Proof.
+  intros H. induction q as [|y q IH]; [reflexivity|].
+  cbn [app]. assert (E : q ++ c1 <> []) by (intros E; apply app_eq_nil in E as [_ E]; congruence).
+  destruct (q ++ c1) as [|z r]; [congruence|]. exact IH.
+Qed.
+
+Lemma strip_cr_app q c1 : c1 <> [] -> strip_cr (q ++ c1) = q ++ strip_cr c1.
+Proof.
+  intros H. unfold strip_cr.
+  destruct (q ++ c1) eqn:E; [apply app_eq_nil in E as [_ E]; congruence|]. rewrite <- E.
+  destruct c1 as [|d c1]; [congruence|].
+  rewrite last_app_ne by discriminate.
+  destruct (last (d :: c1) 0 =? CR); [|reflexivity].
+  apply removelast_app. discriminate.
+Qed.
+
+(* ================================================================== the per-line specification *)
+(* What a helper reply stream means, line by line and independently of how it was read: the decimal number at the
+   start of the line selects the waiting request (concurrent helpers; the oldest request otherwise), which is called
+   back with the rest of the line; when no request is selected the line is dropped. *)
+Definition spec_line (conc : bool) (rs : reqtab) (l : bytes) : reqtab * list disp :=
+  let line := strip_cr l in
+  let '(i, e) := if conc then strtol line else (0%Z, line) in
+  let text := if conc then skip_ws e else line in
+  match pop_request conc i rs with
+  | Some (tag, rs') => (rs', [(tag, Some text)])
+  | None => (rs, [])
+  end.
+
+Fixpoint spec_lines (conc : bool) (rs : reqtab) (ls : list bytes) : reqtab * list disp :=
+  match ls with
+  | [] => (rs, [])
+  | l :: r => let '(rs1, o1) := spec_line conc rs l in
+              let '(rs2, o2) := spec_lines conc rs1 r in (rs2, o1 ++ o2)
+  end.
+
+Definition spec_stream (conc : bool) (rs : reqtab) (stream : bytes) : list disp :=
+  snd (spec_lines conc rs (fst (split_lf stream))).
+
+Lemma spec_lines_app conc rs a b :
+  spec_lines conc rs (a ++ b) =
+  (fst (spec_lines conc (fst (spec_lines conc rs a)) b),
+   snd (spec_lines conc rs a) ++ snd (spec_lines conc (fst (spec_lines conc rs a)) b)).
+Proof.
+  revert rs. induction a as [|l a IH]; intros rs; cbn [app spec_lines fst snd].
+  - destruct (spec_lines conc rs b); reflexivity.
+  - destruct (spec_line conc rs l) as [rs1 o1]. rewrite IH.
+    destruct (spec_lines conc rs1 a) as [rs2 o2]. cbn [fst snd].
+    destruct (spec_lines conc rs2 b) as [rs3 o3]. cbn [fst snd]. now rewrite app_assoc.
+Qed.
+
+(* equality of callbacks up to blanks at both ends of the text *)
+Definition dsim1 (a b : disp) : Prop :=
+  fst a = fst b /\
+  match snd a, snd b with
+  | Some x, Some y => trim x = trim y
+  | None, None => True
+  | _, _ => False
+  end.
+Definition dsim := Forall2 dsim1.
+
+Lemma dsim_refl l : dsim l l.
+Proof. induction l as [|[t [x|]] l IH]; constructor; try exact IH; split; reflexivity || exact I. Qed.
+
+Lemma dsim_app a b c d : dsim a b -> dsim c d -> dsim (a ++ c) (b ++ d).
+Proof. apply Forall2_app. Qed.
+
+(* ================================================================== representation invariant *)
+Definition fresh_st (rs : reqtab) (st : hstate) : Prop :=
+  h_rbuf st = [] /\ h_cur st = None /\ h_ign st = false /\ h_reqs st = rs /\ h_closed st = false /\ h_queue st = [].
+
+Definition decide (conc : bool) (q : bytes) : option (Z * bytes) :=
+  if conc then (if hd_isspace (snd (strtol q)) then Some (strtol q) else None) else Some (0%Z, q).
+
+(* st is the reader's state after the bytes q of a still unterminated line, the table having been rs0 at the
+   start of that line *)
+Definition Rep (conc : bool) (rs0 : reqtab) (q : bytes) (st : hstate) : Prop :=
+  h_closed st = false /\ h_queue st = [] /\
+  match q with
+  | [] => h_rbuf st = [] /\ h_cur st = None /\ h_ign st = false /\ h_reqs st = rs0
+  | _ => match decide conc q with
+         | None => h_rbuf st = q /\ h_cur st = None /\ h_ign st = false /\ h_reqs st = rs0
+         | Some (i, e) =>
+             h_rbuf st = [] /\
+             match pop_request conc i rs0 with
+             | Some (tag, rs1) =>
+                 h_ign st = false /\ h_reqs st = rs1 /\
+                 exists w acc, h_cur st = Some (tag, acc) /\ forallb isspace w = true /\ e = w ++ acc /\
+                               (conc = false -> w = [])
+             | None => h_cur st = None /\ h_ign st = true /\ h_reqs st = rs0
+             end
+         end
+  end.
+
+Lemma kick_nil lim st : h_queue st = [] -> kick lim (h_queue st) st = st.
+Proof. intros H. rewrite H. destruct st; cbn in *. now subst. Qed.
+
+(* L1: a complete line read by a reader in its initial state is handled exactly as the specification says *)
+Lemma process_fresh c rs st l :
+  fresh_st rs st ->
+  exists st', process c true st l = Some (st', snd (spec_line (hc_conc c) rs l)) /\
+              fresh_st (fst (spec_line (hc_conc c) rs l)) st'.
+Proof.
+  intros F. destruct st as [rb cu ig rq nx cl qu]. unfold fresh_st in F. cbn in F.
+  destruct F as (-> & -> & -> & -> & -> & ->).
+  unfold process, spec_line. cbn [h_cur h_ign h_reqs h_rbuf h_next h_closed h_queue negb andb].
+  destruct (if hc_conc c then strtol (strip_cr l) else (0%Z, strip_cr l)) as [i e] eqn:Ei.
+  rewrite andb_false_r. cbn [andb].
+  destruct (pop_request (hc_conc c) i rs) as [[tag rs1]|] eqn:P.
+  - unfold deliver. cbn. eexists. split; [reflexivity|]. unfold fresh_st. cbn. tauto.
+  - unfold deliver. cbn. eexists. split; [reflexivity|]. unfold fresh_st. cbn. tauto.
+Qed.
+
+Lemma process_lines_fresh c rs st ls :
+  fresh_st rs st ->
+  exists st', process_lines c st ls = (st', snd (spec_lines (hc_conc c) rs ls)) /\
+              fresh_st (fst (spec_lines (hc_conc c) rs ls)) st'.
+Proof.
+  revert rs st. induction ls as [|l ls IH]; intros rs st F; cbn [process_lines spec_lines].
+  - exists st. split; [reflexivity| exact F].
+  - destruct (process_fresh c rs st l F) as (st1 & E1 & F1). rewrite E1.
+    destruct (spec_line (hc_conc c) rs l) as [rs1 o1]. cbn [fst snd] in *.
+    destruct (IH rs1 st1 F1) as (st2 & E2 & F2). rewrite E2.
+    destruct (spec_lines (hc_conc c) rs1 ls) as [rs2 o2]. cbn [fst snd] in *.
+    exists st2. split; [reflexivity| exact F2].
+Qed.
